@@ -58,8 +58,10 @@ CHECKS['C09'] = dict(level='model_checking', design='1/C09',
 CHECKS['C10'] = dict(level='model_checking', design='1/C10',
      text='One complete exchange between the real client (Http::request: connect, request line, headers, body, status line, readHeaders, readBody) and the real server (HttpServer::serve(Socket): HttpRequest::read, dispatch to a handler, HttpResponse write/putFile) is executed symbolically over the socket model: for GET/POST with symbolic body bytes (CR, LF, NUL included), symbolic printable header and query values, and responses sent as byte body, status 201, JSON, file, chunk-framed stream and every file range [b,e] within the bound, the handler observes exactly what was sent and the client observes exactly the status, header and body bytes produced. PARTIAL: one client, no handler threads, bodies of a few bytes.',
      note='Partial claim: framing of small messages in both directions; the concurrency clause (many clients in flight), kept-alive client connections and the 16000/128000-byte block boundaries are outside (see evidence.outside). Sockets, files, resolver and clock are environment models. Trusted: z3, engine IR semantics.')
+CHECKS['C13'] = dict(level='model_checking', design='1/C13',
+     text='The real Thread.h/Mutex.h code (start/begin/beginf/beginfN trampolines, lambda constructor hand-over and its spin-wait, join, copy/assignment of handles, parallel_for, parallel_invoke, ThreadGroup, Semaphore, Condition) is executed symbolically on a thread model in which every pthread is a coroutine and the schedule is a sequence of recorded decisions at the visible operations (volatile and atomic accesses, pthread/sem calls, thread exit): all interleavings with at most 2 (thorough 3) preemptions are explored for small scenarios, and parallel_for is checked for symbolic i0, i1 and thread count over the stated range on the hand-over schedule; exactly-once counters, finished() after join() and visibility of effects are assertions decided on every path; context lifetime is checked by the memory model.',
+     note='Bounded schedules (preemption bound), sequentially consistent memory, no detection of races between plain accesses; pthread primitives are the model (engine/threads_sym.py). Violations are confirmed by running the same harness natively with real threads.')
 NA = {
- 'C13': 'not built yet',
  'C14': 'not built yet',
  'C19': 'not built yet',
 }
